@@ -787,7 +787,9 @@ def run(chk: core.Check) -> int:
         if 0xD800 <= cp <= 0xDFFF:
             continue
         ch = chr(cp)
-        p0 += ["x" + ch + "y", ch, "a." + ch + "b or c", "`" + ch + ". d of e"]
+        p0 += ["x" + ch + "y", ch, "a." + ch + "b or c", "`" + ch + ". d of e",
+               # the same character after an opened quote / backtick / bracket (a scanner with lexical state would treat it differently)
+               "'" + ch + "b' or c", '"' + ch + ' or d"', "it's " + ch + "x or y", "(" + ch + ") of `" + ch + "`"]
     for d, _, _ in rng.sample(cases, min(len(cases), 3000 if chk.quick else 30000)):
         p0.append(d)
     p0 = list(dict.fromkeys(p0))
@@ -799,12 +801,12 @@ def run(chk: core.Check) -> int:
         if m is not None and m != r:
             n_dis += 1
             chk.disagreement("C17 correspondence: _parse_adhoc_doc_for_typ_phase0", {"doc": d}, r, m)
-    chk.oblige("correspondence: _parse_adhoc_doc_for_typ_phase0 = Adhoc.phase0 on %d strings (every code point below U+3100 in four contexts)" % len(p0),
+    chk.oblige("correspondence: _parse_adhoc_doc_for_typ_phase0 = Adhoc.phase0 on %d strings (every code point below U+3100 in eight contexts)" % len(p0),
                "correspondence", n_dis == 0 and have_driver, "%d disagreements" % n_dis)
 
     _t("phase0 correspondence")
     # ---- (3) runtime oracle on the real code ----------------------------------------------------------------------------
-    rcases = [CONTROL_CASE] + FIXED_CASES + corpus_rt + gen_runtime_cases(rng, toks, 1200 if chk.quick else 25000)
+    rcases = [CONTROL_CASE] + FIXED_CASES + corpus_rt + gen_runtime_cases(rng, toks, 1200 if chk.quick else 20000)
     recs, meta = run_children(rcases, timeout=150 if chk.quick else 900)
     if not meta["bound_ok"]:
         chk.oblige("docstring_parsers.parse_adhoc_doc_for_typ is the function of parse_utils (profile sees every call)", "correspondence", False,
